@@ -268,24 +268,7 @@ def run(check, an: Analysis):
                                path=rules.path_lines(path, index))
                 break
     # ---- I ------------------------------------------------------------------
-    flags = {}
-    for path in paths:
-        if not path.normal:
-            continue
-        cause = _terminal_cause(path)
-        calls = [e for e in path.events if is_call_to(e, '__child_finished__')]
-        values = [_scope.child_finished_flag(e, path) for e in calls]
-        flags.setdefault(cause, set()).add(tuple(values))
-    expected = {'success': (False,), 'cancelled': (False,), 'closed': (False,),
-                'failed': (True,), 'pre-run-exit': (False,)}
-    for cause, values in sorted(flags.items()):
-        want = expected.get(cause)
-        ok = want is not None and values == {want}
-        check.instance('I', 'wrapper:%s->failed=%s' % (cause, want[0] if want else '?'), ok,
-                       where_fn(wfn), 'parent is told failed=%s exactly once on this kind '
-                       'of end (seen %s)' % (want[0] if want else '?', sorted(values)))
-    check.instance('I', 'wrapper:all-ends', set(expected) <= set(flags), where_fn(wfn),
-                   'the wrapper distinguishes %s' % sorted(flags))
+    check_failed_flag(check, an, 'I', paths, wfn)
     # a signal meant for the payload never counts as the payload's own failure: the
     # specific handlers precede the generic one (exercised by the paths above per class)
     for cls, want in ((CANCEL_TASK, 'cancelled'), (GENEXIT, 'closed')):
@@ -305,9 +288,40 @@ def run(check, an: Analysis):
     from . import c03
     c03._check_signal_lifecycles(check, an, wrapper, rule='K',
                                  only=lambda fn, cls: cls == CANCEL_TASK)
+    # a cancellation thrown into a task that owns a scope leaves that scope as itself
+    from . import c05, c04
+    c05.check_own_exception_wins(check, an, 'K', [CANCEL_TASK])
+    # closing marks a task done whether it has started or not (awaiters resume)
+    c04.check_task_close(check, an, 'X')
     # ---- typestate ----------------------------------------------------------
     _scope.check_typestate(check, an)
     check.stats.update(an.stats())
+
+
+def check_failed_flag(check, an: Analysis, rule: str, paths=None, wfn=None):
+    """how the task wrapper reports each kind of end to the parent scope: failed=True only
+    for a genuine failure of the payload"""
+    if paths is None:
+        wrapper = _scope.wrapper_callee(an)
+        paths, wfn = an.paths(wrapper), wrapper.fn
+    flags = {}
+    for path in paths:
+        if not path.normal:
+            continue
+        cause = _terminal_cause(path)
+        calls = [e for e in path.events if is_call_to(e, '__child_finished__')]
+        values = [_scope.child_finished_flag(e, path) for e in calls]
+        flags.setdefault(cause, set()).add(tuple(values))
+    expected = {'success': (False,), 'cancelled': (False,), 'closed': (False,),
+                'failed': (True,), 'pre-run-exit': (False,)}
+    for cause, values in sorted(flags.items()):
+        want = expected.get(cause)
+        ok = want is not None and values == {want}
+        check.instance(rule, 'wrapper:%s->failed=%s' % (cause, want[0] if want else '?'), ok,
+                       where_fn(wfn), 'parent is told failed=%s exactly once on this kind '
+                       'of end (seen %s)' % (want[0] if want else '?', sorted(values)))
+    check.instance(rule, 'wrapper:all-ends', set(expected) <= set(flags), where_fn(wfn),
+                   'the wrapper distinguishes %s' % sorted(flags))
 
 
 def _terminal_cause(path) -> str:
